@@ -88,8 +88,8 @@ class Report:
             for k in known.get("findings", [])
             if k.get("status", "known") == "known"
         }
-        outdir = VERIF / "out"
-        outdir.mkdir(exist_ok=True)
+        outdir = Path(os.environ.get("MVERIF_OUT", VERIF / "out"))
+        outdir.mkdir(parents=True, exist_ok=True)
         violations = []
         known_hits = []
         errors = []
@@ -199,6 +199,6 @@ class Report:
             "wall_s": round(time.time() - self.t0, 3),
             "violations": n_viol,
         }
-        evdir = VERIF / "evidence"
-        evdir.mkdir(exist_ok=True)
+        evdir = Path(os.environ.get("MVERIF_EVIDENCE", VERIF / "evidence"))
+        evdir.mkdir(parents=True, exist_ok=True)
         (evdir / f"{self.prop}.json").write_text(json.dumps(ev, indent=1, default=str))
